@@ -34,9 +34,9 @@ ASSUMPTIONS = [
     "watched blocks are quarantined (never really released), so addresses are not recycled inside a history",
 ]
 
-KINDS = ["sparse", "dense", "scalar", "empty", "empty_ds", "direct", "direct_dense"]
+KINDS = ["sparse", "dense", "scalar", "empty", "empty_ds", "direct", "direct_dense", "full_strict"]
 IN_KIND = {"sparse": "sparse", "dense": "dense", "scalar": "scalar", "empty": "sparse", "empty_ds": "sparse",
-           "direct": "sparse", "direct_dense": "dense"}
+           "direct": "sparse", "direct_dense": "dense", "full_strict": "sparse"}
 
 
 class ChildDied(Exception):
@@ -270,7 +270,7 @@ REDUCED = [["eval", 0, -1], ["eval", 5, 0], ["eval", 3, 1000], ["alias", 1000], 
 
 
 # second exhaustive family: a held items() iterator and refused calls between evaluations, deletions and collections
-READERS = [["eval", 0, -1], ["eval", 1, 0], ["iter", 1000], ["drain", 0], ["del", 0], ["del", 1000], ["gc"], ["fail_eval", 1000, 0],
+READERS = [["eval", 0, -1], ["eval", 7, 0], ["iter", 1000], ["drain", 0], ["del", 0], ["del", 1000], ["gc"], ["fail_eval", 1000, 0],
            ["fail_eval", 0, 1]]
 
 
@@ -314,12 +314,12 @@ def machine_class(worker, stats):
                 except Exception:  # noqa: BLE001
                     worker.close()
 
-        @rule(kind=st.integers(0, 6))
+        @rule(kind=st.integers(0, 7))
         def evaluate_fresh(self, kind):
             self.do(["eval", kind, -1])
 
         @precondition(lambda self: self.h.tensors())
-        @rule(kind=st.integers(0, 6), src=st.integers(0, 50))
+        @rule(kind=st.integers(0, 7), src=st.integers(0, 50))
         def evaluate_from(self, kind, src):
             self.do(["eval", kind, src])
 
